@@ -155,12 +155,20 @@ func (c *conn) QueryContext(ctx context.Context, query string, named []driver.Na
 	if err != nil {
 		return nil, err
 	}
-	if st.Kind != SSelect && st.Kind != SCount {
+	if st.Kind != SSelect && st.Kind != SCount && st.Kind != SExplain {
 		return nil, c.e.finish(st, &brokenError{"Query used with a statement that returns no rows"})
 	}
 	f := c.e.fault(st)
 	if f != nil && f.Err != nil {
 		return nil, c.e.finish(st, f.Err)
+	}
+	if st.Kind == SExplain {
+		rs, err := c.e.explain(c.tx, st)
+		if err != nil {
+			return nil, c.e.finish(st, err)
+		}
+		c.e.finish(st, nil)
+		return &rows{rs: rs}, nil
 	}
 	rs, err := c.e.execSelect(ctx, c.tx, st)
 	if err != nil {
@@ -183,6 +191,10 @@ func (c *conn) ExecContext(ctx context.Context, query string, named []driver.Nam
 	}
 	if st.Kind == SSelect || st.Kind == SCount {
 		_, err := c.e.execSelect(ctx, c.tx, st)
+		return execResult{}, c.e.finish(st, err)
+	}
+	if st.Kind == SExplain {
+		_, err := c.e.explain(c.tx, st)
 		return execResult{}, c.e.finish(st, err)
 	}
 	res, err := c.e.execWrite(ctx, c.tx, st)
